@@ -1,4 +1,6 @@
 import CohdlVerif.Lemmas.FifoLemmas
+import CohdlVerif.Lemmas.C14ExtStack
+import CohdlVerif.Lemmas.C14ExtFifo
 
 /-!
   C14 - property theorems: `std.Fifo[T,N]` refines a queue of capacity N-1 and `std.Stack[T,N]`
@@ -159,3 +161,101 @@ example : Rel 3 (runF 3 (Fifo.init 3) [.push 7, .push 8, .pop, .both 9]) ⟨[9],
   have h := C14.fifo_refines_queue 3 (by omega) [.push 7, .push 8, .pop, .both 9] _ _
     (C14.fifo_init_rel 3 (by omega)) (by simp [legalSeq, Queue.legal, Queue.step])
   simpa [runQ, Queue.step] using h
+
+/-! ## C14 extension: `std.Stack[T,N]` (NO_OVERFLOW and DROP_OLD) refines the abstract `Lifo`
+  (helper lemmas and the refinement relations `SRelN` / `SRelD` / `SRel`: Lemmas/C14ExtStack.lean) -/
+
+/-- initial states are related (DROP_OLD keeps a write position `idx < N`, hence N ≥ 1) -/
+theorem C14.stack_init_rel (m : Mode) (N : Nat) (hN : 1 ≤ N) : SRel m N (Stack.init N) ⟨[], none⟩ := by
+  cases m with
+  | noOverflow => exact srelN_init N
+  | dropOld => exact srelD_init N hN
+
+/-- one legal operation (idle / push / pop / reset) preserves the refinement relation, in both modes and for
+    every capacity.  DROP_OLD: `push` is always legal and the abstract stack keeps the N newest elements
+    (`(v :: st).take N`): a push to a full stack drops exactly the oldest element. -/
+theorem C14.stack_step_refines (m : Mode) (N : Nat) (s : Stack) (a : Lifo) (op : SOp)
+    (hR : SRel m N s a) (hl : a.legal m N op = true) : SRel m N (s.step m N op) (a.step m N op) :=
+  srel_step m N s a op hR hl
+
+/-- in related states the observables are exact: `size` is the number of stacked elements, `empty` / `full`
+    hold exactly at 0 / N elements, `front` is the newest element, the output register is the last popped one -/
+theorem C14.stack_flags_exact (m : Mode) (N : Nat) (s : Stack) (a : Lifo) (hR : SRel m N s a) :
+    s.count m = a.st.length ∧ s.empty m = (a.st.length == 0) ∧ s.full m N = (a.st.length == N) ∧
+    (a.st ≠ [] → s.front m N = a.st.head?) ∧ s.dout = a.out ∧ a.st.length ≤ N := by
+  cases m with
+  | noOverflow => have h := srelN_flags N s a hR; exact ⟨h.1, h.2.1, h.2.2.1, h.2.2.2.1, h.2.2.2.2, hR.cap⟩
+  | dropOld => have h := srelD_flags N s a hR; exact ⟨h.1, h.2.1, h.2.2.1, h.2.2.2.1, h.2.2.2.2, hR.cap⟩
+
+/-- C14 (Stack part), full strength: for both modes, every capacity N ≥ 1 and every operation sequence that
+    respects the documented preconditions (incl. reset at any point), the Stack registers stay related to the
+    abstract LIFO - elements come out newest-first without loss or duplication, DROP_OLD loses exactly the
+    oldest element on a push to a full stack, and size / empty / full / front are exact after every clock
+    (by `C14.stack_flags_exact`). -/
+theorem C14.stack_refines_list (m : Mode) (N : Nat) (ops : List SOp) :
+    ∀ (s : Stack) (a : Lifo), SRel m N s a → legalSeqS m N a ops →
+      SRel m N (runS m N s ops) (runL m N a ops) := by
+  induction ops with
+  | nil => intro s a h _; exact h
+  | cons op ops ih =>
+    intro s a hR hl
+    exact ih _ _ (C14.stack_step_refines m N s a op hR hl.1) hl.2
+
+/-- non-vacuity: a DROP_OLD stack of capacity 2 after three pushes has dropped the oldest element (7) and
+    stays related to its list; the pop returns the newest (9) -/
+example : SRel .dropOld 2 (runS .dropOld 2 (Stack.init 2) [.push 7, .push 8, .push 9, .pop]) ⟨[8], some 9⟩ := by
+  have h := C14.stack_refines_list .dropOld 2 [.push 7, .push 8, .push 9, .pop] _ _
+    (C14.stack_init_rel .dropOld 2 (by omega)) (by simp [legalSeqS, Lifo.legal, Lifo.step])
+  simpa [runL, Lifo.step] using h
+
+/-- non-vacuity (NO_OVERFLOW with a reset in the middle) -/
+example : SRel .noOverflow 3 (runS .noOverflow 3 (Stack.init 3) [.push 1, .push 2, .reset, .push 5])
+    ⟨[5], none⟩ := by
+  have h := C14.stack_refines_list .noOverflow 3 [.push 1, .push 2, .reset, .push 5] _ _
+    (C14.stack_init_rel .noOverflow 3 (by omega)) (by simp [legalSeqS, Lifo.legal, Lifo.step])
+  simpa [runL, Lifo.step] using h
+
+/-! ## C14 extension: the DELAYED Fifo (`tx_delay` / `rx_delay` != 0, producer and consumer in different contexts)
+  Model: Model/C14ExtFifo.lean (`DFifo`: set / buf / remote indices, SyncFlag ping-pong with the C15 flag model,
+  asynchronous interleaving of the pushing and the popping context; no analog metastability).  The wrapper
+  guards `push` with the SENDER's view of `full()` and `pop` with the RECEIVER's view of `empty()`.
+  Relation `DRel` (Lemmas/C14ExtFifo.lean): ghost unwrapped counters with
+  `RD ≤ BR ≤ SR ≤ W ≤ BW ≤ SW ≤ RD + N - 1`, every index register = its counter mod N, the queue content is
+  `mem[SR .. SW)`.  All delays, all capacities N ≥ 2, all schedules. -/
+
+/-- one step of the delayed Fifo - ANY interleaving (`i.tp`, `i.tc`), any attempt - performs on the abstract queue
+    exactly the operation the guards let through (`opOf`) and preserves the refinement relation -/
+theorem C14.fifo_delayed_step_refines (N : Nat) (hN : 2 ≤ N) (s : DFifo) (a : Queue) (g : Ghost)
+    (h : DRel N s a g) (i : DIn) :
+    DRel N (s.step N i) (a.step (s.opOf N i))
+      (g.step (s.effPush N i).isSome (s.effPop i) (i.tp && !s.flag.pSet) (i.tc && s.flag.cSet)) ∧
+    a.legal N (s.opOf N i) = true :=
+  ⟨drel_step N hN s a g h i, drel_legal N hN s a g h i⟩
+
+/-- occupancy as seen by each side is conservative: when the sender sees not-full there really is room, when the
+    receiver sees not-empty there really is an element; `front` is the oldest element, the output register
+    the last popped one, the occupancy never exceeds N-1 -/
+theorem C14.fifo_delayed_conservative (N : Nat) (hN : 2 ≤ N) (s : DFifo) (a : Queue) (g : Ghost)
+    (h : DRel N s a g) :
+    a.q.length < N ∧ s.dout = a.out ∧ (a.q ≠ [] → s.front = a.q.head?) ∧
+    (s.fullS N = false → a.q.length + 1 < N) ∧ (s.emptyR = false → a.q ≠ []) :=
+  drel_flags N hN s a g h
+
+/-- C14 (delayed Fifo), full strength: for every capacity N ≥ 2, every tx/rx delay and every schedule of the two
+    contexts, the state stays related to the abstract queue driven by the executed operations (order and content
+    exact: what is popped is what was pushed, in order, nothing lost or duplicated), and no executed operation
+    ever overflows or underflows the queue. -/
+theorem C14.fifo_delayed_refines_queue (N : Nat) (hN : 2 ≤ N) (txd rxd : Nat) (ins : List DIn) :
+    (∃ g, DRel N (DFifo.run N (DFifo.init N txd rxd) ins)
+            (DFifo.runQ N (DFifo.init N txd rxd) ⟨[], none⟩ ins) g) ∧
+    DFifo.legalRun N (DFifo.init N txd rxd) ⟨[], none⟩ ins :=
+  drel_run N hN ins _ _ _ (drel_init N txd rxd hN)
+
+/-- non-vacuity: N = 3, tx_delay 1, rx_delay 2; two pushes, a third attempt that the sender's view refuses,
+    later two pops: the abstract queue saw push 5, push 6, pop, pop -/
+example :
+    let ins : List DIn := [⟨true, some 5, false, false⟩, ⟨true, some 6, true, true⟩, ⟨true, some 7, true, true⟩,
+      ⟨true, none, true, true⟩, ⟨true, none, true, true⟩, ⟨true, none, true, true⟩, ⟨true, none, true, true⟩,
+      ⟨true, none, true, true⟩, ⟨true, none, true, true⟩, ⟨false, none, true, true⟩]
+    DFifo.runQ 3 (DFifo.init 3 1 2) ⟨[], none⟩ ins = ⟨[], some 6⟩ ∧
+    (DFifo.run 3 (DFifo.init 3 1 2) ins).dout = some 6 := by decide
